@@ -88,6 +88,18 @@ pub fn compare_values_for_sort(a: &Value, b: &Value) -> Ordering {
     a.compare_for_sort(b)
 }
 
+/// Hashes one join key so that keys which `Value::compare` treats as equal hash equally:
+/// an integral Float in the exactly representable range hashes like the Int of the same
+/// value (so `1` meets `1.0`, and `0.0` meets `-0.0`).
+pub fn hash_join_key<H: std::hash::Hasher>(v: &Value<'_>, hasher: &mut H) {
+    use std::hash::Hash;
+    const EXACT: f64 = 9007199254740992.0; // 2^53
+    match v {
+        Value::Float(f) if f.fract() == 0.0 && f.abs() <= EXACT => (*f as i64).hash(hasher),
+        other => other.hash_to(hasher),
+    }
+}
+
 /// Hashes row keys for hash join operations.
 pub fn hash_keys<'a>(row: &ExecutorRow<'a>, key_indices: &[usize]) -> u64 {
     use std::collections::hash_map::DefaultHasher;
@@ -96,7 +108,7 @@ pub fn hash_keys<'a>(row: &ExecutorRow<'a>, key_indices: &[usize]) -> u64 {
     let mut hasher = DefaultHasher::new();
     for &idx in key_indices {
         if let Some(val) = row.get(idx) {
-            val.hash_to(&mut hasher);
+            hash_join_key(val, &mut hasher);
         }
     }
     hasher.finish()
@@ -110,7 +122,7 @@ pub fn hash_keys_static(row: &[Value<'static>], key_indices: &[usize]) -> u64 {
     let mut hasher = DefaultHasher::new();
     for &idx in key_indices {
         if let Some(val) = row.get(idx) {
-            val.hash_to(&mut hasher);
+            hash_join_key(val, &mut hasher);
         }
     }
     hasher.finish()
